@@ -130,11 +130,15 @@ func (r *RibEntry) updateNexthopsEnc() {
 	// Get all possible nexthops for parents that are inherited,
 	// unless we have the capture flag set
 	if !r.HasCaptureRoute() {
-		for entry := r; entry != nil; entry = entry.parent {
+		for entry := r.parent; entry != nil; entry = entry.parent {
 			for _, route := range entry.routes {
 				if route.HasChildInheritFlag() {
 					routes = append(routes, route)
 				}
+			}
+			// A capture route blocks inheritance from prefixes shorter than its own
+			if entry.HasCaptureRoute() {
+				break
 			}
 		}
 	}
